@@ -55,6 +55,15 @@ def generate(seed: int, tier: str) -> Dict[str, Any]:
     world = E.gen_world(rng.stream("world"), n_agents=r.randint(1, 2), max_graphs=1, max_nodes=4, max_eps=3, odd_ids=False)
     raw = E.valid_cfg(rng.stream("config"), ["t4", "t4cache", "kill", "t3"], p=0.4)
     raw.setdefault("t3", {})["max_rag_loops"] = r.choice([0, 0, 1])
+    hand_ns = None
+    if r.chance(0.3):
+        # several configured namespaces, one of them never filled by anything (or listed twice): every one of them is to be
+        # invalidated on a commit
+        # (the validator only knows the namespace the orchestrator fills itself; a caller with caches of its own sets the list by hand)
+        hand_ns = r.choice([["t1:propagate", "t2:semantic"], ["never:used", "t2:semantic"], ["t2:semantic", "t2:semantic"], ["t2:semantic", "never:used"]])
+        raw.setdefault("t4", {}).setdefault("cache", {})["enabled"] = True
+        raw["t4"]["cache"].pop("max_entries", None)
+        raw["t4"]["cache_bust_mode"] = "on-apply"
     ro = rng.stream("ops")
     agents = sorted(world["agents"])
     ops: List[Dict[str, Any]] = []
@@ -96,7 +105,7 @@ def generate(seed: int, tier: str) -> Dict[str, Any]:
                         "now_ms": E.T0_MS + turn * 1000, "deltas": deltas, "store_fault": fault})
             turn += ro.choice([1, 1, 1, 0, 2])
     # how the caller hands the configuration over: ctx.cfg + ctx.config, or ctx.cfg only (TurnCtx, run_smoke_turn)
-    return {"world": world, "cfg": raw, "ops": ops, "ctx_style": r.choice(["both", "both", "cfg_only"])}
+    return {"world": world, "cfg": raw, "ops": ops, "ctx_style": r.choice(["both", "both", "cfg_only"]), "hand_namespaces": hand_ns}
 
 
 _EXC = {"RuntimeError": RuntimeError, "ValueError": ValueError, "KeyError": KeyError, "OSError": OSError}
@@ -163,6 +172,10 @@ def execute(program: Dict[str, Any]) -> Dict[str, Any]:
         with E.EngineEnv(root, clock) as ee:
             store = RecordingStore()
             run = E.EngineRun(program["world"], program["cfg"], ee, store=store)
+            if program.get("hand_namespaces"):
+                run.hand_set = [(["t4", "cache", "namespaces"], list(program["hand_namespaces"]))]
+                run.cfg = run._mk_cfg()
+                stats["hand_set_namespaces"] = 1
             run.ctx_style = program.get("ctx_style", "both")
             # clauses that depend on the t4 section being READ carry the context shape in their signature (known finding:
             # Apply reads ctx.config only); every other clause is shape-independent
